@@ -759,6 +759,7 @@ func (r *ACLResolver) collectPoliciesForIdentity(identity structs.ACLIdentity, p
 	// Get all associated policies
 	var missing []string
 	var expired []*structs.ACLPolicy
+	var expiredNegative []string
 	expCacheMap := make(map[string]*structs.PolicyCacheEntry)
 
 	var accessorID string
@@ -792,7 +793,13 @@ func (r *ACLResolver) collectPoliciesForIdentity(identity structs.ACLIdentity, p
 		}
 
 		if entry.Policy == nil {
-			// this happens when we cache a negative response for the policy's existence
+			// this happens when we cache a negative response for the policy's existence.
+			// It is honoured for as long as any other cache entry and then asked for again:
+			// the policy may exist by now.
+			if entry.Age() >= r.config.ACLPolicyTTL {
+				expiredNegative = append(expiredNegative, policyID)
+				expCacheMap[policyID] = entry
+			}
 			continue
 		}
 
@@ -805,7 +812,7 @@ func (r *ACLResolver) collectPoliciesForIdentity(identity structs.ACLIdentity, p
 	}
 
 	// Hot-path if we have no missing or expired policies
-	if len(missing)+len(expired) == 0 {
+	if len(missing)+len(expired)+len(expiredNegative) == 0 {
 		return policies, nil
 	}
 
@@ -815,6 +822,7 @@ func (r *ACLResolver) collectPoliciesForIdentity(identity structs.ACLIdentity, p
 	for _, policy := range expired {
 		fetchIDs = append(fetchIDs, policy.ID)
 	}
+	fetchIDs = append(fetchIDs, expiredNegative...)
 
 	// Background a RPC request and wait on it if we must
 	waitChan := r.policyGroup.DoChan(identity.SecretToken(), func() (interface{}, error) {
@@ -861,6 +869,7 @@ func (r *ACLResolver) collectRolesForIdentity(identity structs.ACLIdentity, role
 
 	var missing []string
 	var expired []*structs.ACLRole
+	var expiredNegative []string
 	expCacheMap := make(map[string]*structs.RoleCacheEntry)
 
 	for _, roleID := range roleIDs {
@@ -893,7 +902,12 @@ func (r *ACLResolver) collectRolesForIdentity(identity structs.ACLIdentity, role
 		}
 
 		if entry.Role == nil {
-			// this happens when we cache a negative response for the role's existence
+			// this happens when we cache a negative response for the role's existence.
+			// It is honoured for as long as any other cache entry and then asked for again.
+			if entry.Age() >= r.config.ACLRoleTTL {
+				expiredNegative = append(expiredNegative, roleID)
+				expCacheMap[roleID] = entry
+			}
 			continue
 		}
 
@@ -906,7 +920,7 @@ func (r *ACLResolver) collectRolesForIdentity(identity structs.ACLIdentity, role
 	}
 
 	// Hot-path if we have no missing or expired roles
-	if len(missing)+len(expired) == 0 {
+	if len(missing)+len(expired)+len(expiredNegative) == 0 {
 		return roles, nil
 	}
 
@@ -916,6 +930,7 @@ func (r *ACLResolver) collectRolesForIdentity(identity structs.ACLIdentity, role
 	for _, role := range expired {
 		fetchIDs = append(fetchIDs, role.ID)
 	}
+	fetchIDs = append(fetchIDs, expiredNegative...)
 
 	waitChan := r.roleGroup.DoChan(identity.SecretToken(), func() (interface{}, error) {
 		roles, err := r.fetchAndCacheRolesForIdentity(identity, fetchIDs, expCacheMap)
